@@ -31,6 +31,8 @@ ASSUMPTIONS = list(refcodec.TRUSTED_BASE) + [
     "only chunks with a documented default are dropped; enum values outside the enumeration are not well-formed and not generated",
     "CVAL truncation is not applied to MetaModules (the stored value of an unlisted user controller has no documented default)",
 ]
+# classes of cases that are produced deterministically: their absence is a harness error (see vlib.harness)
+HARD_LABELS = ['fixture', 'interpreter_optimized', 'interpreter_warnings_are_errors']
 REQUIRED_LABELS = {
     "quick": ["encoded_project", "encoded_synth", "unknown_chunk", "dropped_optional", "truncated_cvals", "interior_gap", "old_version", "header_permuted", "fixture", "fixture_unknown", "fixture_dropped", "fixture_truncated", "nested_container_of_other_version_era", "interpreter_optimized", "interpreter_warnings_are_errors"],
     "thorough": ["encoded_project", "encoded_synth", "unknown_chunk", "dropped_optional", "truncated_cvals", "interior_gap", "old_version", "header_permuted", "fixture", "fixture_unknown", "fixture_dropped", "fixture_truncated", "fixture_all_positions"],
